@@ -93,10 +93,10 @@ def _domain(rng, kind, k, name, cat_choices):
     if kind == "int":
         step = rng.choice([1, 1, 1, 2, 3])
         low = rng.choice([-2, 0, 0, 1, 5])
-        a = {"low": low, "high": low + step * (k - 1), "step": step}
-        if step == 1 and low >= 1 and rng.random() < 0.3:
-            a["log"] = True
-        return a
+        return {"low": low, "high": low + step * (k - 1), "step": step}
+    if kind == "lint":      # log-scaled int (optuna requires one log setting per parameter name)
+        low = rng.choice([1, 2, 5])
+        return {"low": low, "high": low + k - 1, "step": 1, "log": True}
     step = rng.choice([0.5, 0.25, 0.1, 1.0, 0.05])
     low = rng.choice([0.0, -1.0, 0.1, 1.5, -0.3])
     lo, st = decimal.Decimal(str(low)), decimal.Decimal(str(step))
@@ -126,13 +126,13 @@ def shape_to_tree(rng, shape, p_bad, names_mode):
         if not s:
             return _leaf(rng, p_bad)
         k = len(s)
-        kind = rng.choice(["cat", "int", "float"])
+        kind = rng.choice(["cat", "cat", "int", "int", "lint", "float", "float"])
         name = pick_name(kind, k, used, depth)
         kind_of[name] = kind
         if kind == "cat" and name not in cat_choices:
             opts = [c for c in _CAT_POOL if len(c) == k] or [[f"o{j}" for j in range(k)]]
             cat_choices[name] = rng.choice(opts)
-        node = {"n": name, "k": kind, "a": _domain(rng, kind, k, name, cat_choices)}
+        node = {"n": name, "k": "int" if kind == "lint" else kind, "a": _domain(rng, kind, k, name, cat_choices)}
         node["ch"] = [build(c, used | {name}, depth + 1) for c in s]
         return node
 
@@ -230,8 +230,14 @@ def _drive(sc, make_sampler, objective_factory, ev, n_total_hint):
     def cb(st, ft):
         ev.append({"op": "finish", "st": ft.state.name})
 
-    def n_trials_now():
-        return len(study.get_trials(deepcopy=False))
+    def n_trials_now():      # trials that were started (enqueued trials exist as WAITING before they run)
+        return sum(1 for t in study.get_trials(deepcopy=False) if t.state.name != "WAITING")
+
+    def state_of_last_started():
+        for t in study.get_trials(deepcopy=False):
+            if t.number == counters.get("num"):
+                return t.state.name
+        return "UNKNOWN"
 
     dead = False
     for seg in sc["segments"]:
@@ -255,17 +261,19 @@ def _drive(sc, make_sampler, objective_factory, ev, n_total_hint):
                 ev.append({"op": "return", "ran": n_trials_now() - before})
                 break
             except (_Crash, KeyboardInterrupt):
-                ts = study.get_trials(deepcopy=False)
-                if ev[-1]["op"] != "finish" and ts:
-                    ev.append({"op": "finish", "st": ts[-1].state.name})
+                if ev[-1]["op"] != "finish":
+                    ev.append({"op": "finish", "st": state_of_last_started()})
                 ran = n_trials_now() - before
                 ev.append({"op": "interrupt", "ran": ran})
                 remaining -= max(ran, 1)
             except Exception as e:  # anything the real code raised out of optimize
-                ts = study.get_trials(deepcopy=False)
-                if ev[-1]["op"] not in ("finish", "optimize") and ts:
-                    ev.append({"op": "finish", "st": ts[-1].state.name})
-                ev.append({"op": "raise", "exc": f"{type(e).__name__}: {e}"[:160]})
+                if ev[-1]["op"] not in ("finish", "optimize"):
+                    ev.append({"op": "finish", "st": state_of_last_started()})
+                chain, x = [], e
+                while x is not None and len(chain) < 4:      # an exception raised while handling another one hides it
+                    chain.append(f"{type(x).__name__}: {x}"[:160])
+                    x = x.__cause__ or x.__context__
+                ev.append({"op": "raise", "exc": chain[0], "chain": " <- ".join(chain)})
                 dead = True
                 break
     ev.append({"op": "end"})
@@ -286,6 +294,7 @@ def run_bf(sc):
         def objective(trial):
             j = counters["j"]
             counters["j"] += 1
+            counters["num"] = trial.number
             ev.append({"op": "start"})
             node, depth = prog, 0
             while "ch" in node:
@@ -332,6 +341,7 @@ def run_grid(sc):
         def objective(trial):
             j = counters["j"]
             counters["j"] += 1
+            counters["num"] = trial.number
             ev.append({"op": "start", "enq": 1 if "fixed_params" in trial.system_attrs else 0})
             cell = [None] * len(params)
             for pi in order:
@@ -527,24 +537,43 @@ def _describe(sc, trace, info):
             f"space={space} trials={trials}")
 
 
+def _aborted_before(trace, at):
+    """did a trial end between two suggests (at an inner node of the program) before event number `at`?"""
+    leaves = {tuple((x["n"], x["v"]) for x in p) for p in trace["prog"]}
+    path = ()
+    for x in trace["ev"][:at - 1]:
+        if x["op"] == "start":
+            path = ()
+        elif x["op"] == "suggest":
+            path += ((x["n"], x["v"]),)
+        elif x["op"] == "finish" and path not in leaves:
+            return True
+    return False
+
+
 def _signature(sc, trace, info):
+    """Which known defect (if any) a rejected trace of the two special families shows -- by its symptom."""
     ev = trace["ev"]
     at = info["reached"]
     e = ev[at - 1] if 1 <= at <= len(ev) else {}
     if sc["fam"] == "bf-midtrial":
-        if e.get("op") == "raise" and e.get("exc", "").startswith("ValueError") and "mismatch" in e.get("exc", ""):
+        if e.get("op") == "raise" and "ValueError: param_name mismatch" in e.get("chain", ""):
             return SIG_K3_RAISE
-        if e.get("op") == "return" and not any(x["op"] == "raise" for x in ev):
+        # a trial ended between two suggests before the rejected event and the sampler took that inner node for a
+        # visited leaf: premature stop ("return"), or a duplicate when the user resumes the "finished" study ("suggest")
+        if e.get("op") in ("return", "suggest") and _aborted_before(trace, at):
             return SIG_K3_SKIP
     if sc["fam"] == "grid-enqueue":
-        if e.get("op") == "raise" and e.get("exc", "").startswith("KeyError") and "grid_id" in e.get("exc", ""):
+        if e.get("op") == "raise" and "KeyError: 'grid_id'" in e.get("chain", ""):
             return SIG_F13
     return None
 
 
-def judge(ctx, scs, traces, label):
-    """scs[i] produced traces[i]; validates per spec module, reports rejections."""
+def judge(ctx, scs, traces, label, shards=5):
+    """scs[i] produced traces[i]; validates per spec module (both modules at once), reports rejections."""
+    import concurrent.futures as cf
     n_viol = 0
+    work = []
     for key, (mod, cfg) in SPEC_OF.items():
         idx = [i for i, sc in enumerate(scs) if sc["fam"].startswith(key)]
         if not idx:
@@ -554,7 +583,11 @@ def judge(ctx, scs, traces, label):
             t = dict(traces[i])
             t["tid"] = i + 1
             batch.append(t)
-        v = tlc.validate(mod, cfg, batch, shards=16, timeout=900)
+        work.append((key, mod, cfg, batch))
+    with cf.ThreadPoolExecutor(max_workers=max(1, len(work))) as ex:
+        futs = [ex.submit(tlc.validate, mod, cfg, batch, shards=shards, timeout=900) for _, mod, cfg, batch in work]
+        vals = [f.result() for f in futs]
+    for (key, mod, cfg, batch), v in zip(work, vals):
         ctx.validated(v, f"{label}:{key}")
         for tid in sorted(v.rejected):
             sc, tr, info = scs[tid - 1], traces[tid - 1], v.rejected[tid]
@@ -575,134 +608,176 @@ def judge(ctx, scs, traces, label):
     return n_viol
 
 
-def _run_all(scs, ctx):
+def _make_pool():
     import multiprocessing as mp
     nproc = int(os.environ.get("VERIF_C14_PROCS", "8"))
-    if nproc <= 1 or len(scs) < 50:
+    if nproc <= 1:
+        return None
+    tlc.scratch()        # children inherit the scratch root (cleaned by the parent)
+    return mp.get_context("fork").Pool(nproc, initializer=_pool_init, initargs=(common.repo_path(),))
+
+
+def _run_all(scs, pool):
+    if pool is None:
         common.use_repo()
         res = [run_scenario(sc) for sc in scs]
     else:
-        with mp.get_context("fork").Pool(nproc, initializer=_pool_init, initargs=(common.repo_path(),)) as pool:
-            res = pool.map(run_scenario, scs, chunksize=16)
+        res = pool.map(run_scenario, scs, chunksize=16)
     for sc, t in zip(scs, res):
         if "error" in t:
             raise tlc.MachineryError(f"harness failed on scenario {sc}: {t['error']}")
     return res
 
 
+MC_BF_COVER = ["MCOptimize", "MCStartTrial", "MCSuggest", "MCFinish", "MCReturnSelf", "MCInterrupt"]
+
+
+def _model_jobs(quick):
+    jobs = [
+        ("BruteForceMC_q2 (depth<=2, branching<=2, splits, 1 mid-trial abort, liveness)", "req", "BruteForceMC",
+         "BruteForceMC_q2", MC_BF_COVER + ["MCAbort", "MCReturnCap"]),
+        (("BruteForceMC_q (depth<=3, branching<=2, <=5 leaves)" if quick else "BruteForceMC_t (depth<=3, branching<=2)"),
+         "req", "BruteForceMC", "BruteForceMC_q" if quick else "BruteForceMC_t", MC_BF_COVER),
+        ("model_level_K3", "exp", "BruteForceMC", "BruteForceMC_k3", "AlgAgreesAlways"),
+        ("GridMC_q (<=4 cells, splits, <=2 enqueued trials, liveness)", "req", "GridMC", "GridMC_q",
+         ["MCEnqueue", "MCOptimize", "MCStartTrial", "MCAssign", "MCFinish", "MCReturnSelf", "MCReturnCap", "MCInterrupt"]),
+        ("GridAlgMC_q (grid_id bookkeeping and stop rule of the code, no enqueued trials)", "req", "GridAlgMC",
+         "GridAlgMC_q", ["AOptimize", "AStart", "AFinish", "AReturn", "AInterrupt"]),
+        ("model_level_F13", "exp", "GridAlgMC", "GridAlgMC_f13", "NoError"),
+    ]
+    if not quick:
+        jobs.append(("BruteForceMC_t3 (depth<=2, branching<=3)", "req", "BruteForceMC", "BruteForceMC_t3", MC_BF_COVER))
+    return jobs
+
+
+def _scenarios(ctx):
+    quick = ctx.quick
+    rng = ctx.rng
+    scs = []
+    shapes = all_shapes(3, 2)                         # the 183 shapes of BruteForceMC_t, each typed at random
+    for _ in range(1 if quick else 6):
+        for s in shapes:
+            scs.append(gen_bf(ctx, s, "bf-main"))
+    for _ in range(800 if quick else 12000):
+        while True:
+            s = random_shape(rng, rng.choice([2, 3, 3, 4]), 3, 0.05)
+            if 2 <= n_leaves_shape(s) <= (12 if quick else 16):
+                break
+        scs.append(gen_bf(ctx, s, "bf-main"))
+    scs.append(k3_scenario())
+    for _ in range(100 if quick else 1500):
+        while True:
+            s = random_shape(rng, rng.choice([2, 3]), 3, 0.05)
+            if s and 2 <= n_leaves_shape(s) <= 9:
+                break
+        scs.append(gen_bf(ctx, s, "bf-midtrial"))
+    for _ in range(700 if quick else 8000):
+        scs.append(gen_grid(ctx, "grid-main"))
+    scs.append(f13_scenario())
+    for _ in range(100 if quick else 1500):
+        scs.append(gen_grid(ctx, "grid-enqueue"))
+    return scs
+
+
+def _dup_trial(t):             # the last trial is evaluated once more before optimize returns
+    ev = t["ev"]
+    starts = [i for i, e in enumerate(ev) if e["op"] == "start"]
+    fin = max(i for i, e in enumerate(ev) if e["op"] == "finish")
+    ev[fin + 1:fin + 1] = [dict(e) for e in ev[starts[-1]:fin + 1]]
+    [e for e in ev if e["op"] == "return"][-1]["ran"] += 1
+
+
+def _early_stop(t):            # the last trial never happened: optimize returned before the last leaf
+    ev = t["ev"]
+    starts = [i for i, e in enumerate(ev) if e["op"] == "start"]
+    fin = max(i for i, e in enumerate(ev) if e["op"] == "finish")
+    del ev[starts[-1]:fin + 1]
+    [e for e in ev if e["op"] == "return"][-1]["ran"] -= 1
+
+
 def run(ctx):
+    import concurrent.futures as cf
     ctx.rule = ("a case = (program tree or grid, leaf outcome pattern, split of the run into optimize calls, "
                 "crash points, seed, sampler options/renewal, storage) run on the real sampler under study.optimize; "
                 "its event trace is replayed by TLC in BruteForce.tla / Grid.tla; distinct = distinct scenarios "
                 "with at least 2 leaves/cells")
     quick = ctx.quick
-    # ---- spec level
-    r = tlc.require_model("BruteForceMC", "BruteForceMC_q2", timeout=600, must_cover=[
-        "MCOptimize", "MCStartTrial", "MCSuggest", "MCFinish", "MCAbort", "MCReturnSelf", "MCReturnCap", "MCInterrupt"])
-    ctx.model(r, "BruteForceMC_q2 (depth<=2, branching<=2, splits, 1 mid-trial abort, liveness)")
-    r = tlc.require_model("BruteForceMC", "BruteForceMC_q" if quick else "BruteForceMC_t", timeout=3000, must_cover=[
-        "MCOptimize", "MCStartTrial", "MCSuggest", "MCFinish", "MCReturnSelf"])
-    ctx.model(r, "BruteForceMC_q (depth<=2, branching<=3)" if quick else "BruteForceMC_t (depth<=3, branching<=2)")
-    r = tlc.expect_violation("BruteForceMC", "BruteForceMC_k3", "AlgAgreesAlways", timeout=600)
-    ctx.notes["model_level_K3"] = ("the modelled tree bookkeeping of the code disagrees with the property as soon as a "
-                                   f"trial ends between two suggests (AlgAgreesAlways violated, {r.wall_s:.1f}s)")
-    r = tlc.require_model("GridMC", "GridMC_q", timeout=600, must_cover=[
-        "MCEnqueue", "MCOptimize", "MCStartTrial", "MCAssign", "MCFinish", "MCReturnSelf", "MCReturnCap", "MCInterrupt"])
-    ctx.model(r, "GridMC_q (<=4 cells, splits, <=2 enqueued trials, liveness)")
-    r = tlc.require_model("GridAlgMC", "GridAlgMC_q", timeout=600, must_cover=[
-        "AOptimize", "AStart", "AFinish", "AReturn"])
-    ctx.model(r, "GridAlgMC_q (grid_id bookkeeping + stop rule of the code, no enqueued trials)")
-    r = tlc.expect_violation("GridAlgMC", "GridAlgMC_f13", "NoError", timeout=600)
-    ctx.notes["model_level_F13"] = ("with an enqueued trial the modelled after_trial reads a missing grid_id "
-                                    f"(NoError violated, {r.wall_s:.1f}s)")
+    pool = _make_pool()                     # fork the scenario workers before any thread exists
 
-    # ---- scenarios
-    scs = []
-    shapes = all_shapes(3, 2)                         # the 183 shapes of BruteForceMC_t, each typed at random
-    reps = 1 if quick else 6
-    for _ in range(reps):
-        for s in shapes:
-            scs.append(gen_bf(ctx, s, "bf-main"))
-    n_rand = 1300 if quick else 12000
-    for _ in range(n_rand):
-        while True:
-            s = random_shape(ctx.rng, ctx.rng.choice([2, 3, 3, 4]), 3, 0.05)
-            if 2 <= n_leaves_shape(s) <= (12 if quick else 16):
-                break
-        scs.append(gen_bf(ctx, s, "bf-main"))
-    n_mid = 150 if quick else 1500
-    scs.append(k3_scenario())
-    for _ in range(n_mid):
-        while True:
-            s = random_shape(ctx.rng, ctx.rng.choice([2, 3]), 3, 0.05)
-            if 2 <= n_leaves_shape(s) <= 9 and s:
-                break
-        scs.append(gen_bf(ctx, s, "bf-midtrial"))
-    n_grid = 900 if quick else 8000
-    for _ in range(n_grid):
-        scs.append(gen_grid(ctx, "grid-main"))
-    scs.append(f13_scenario())
-    for _ in range(150 if quick else 1500):
-        scs.append(gen_grid(ctx, "grid-enqueue"))
+    # ---- spec level: the TLC runs are independent of each other and of the scenarios; started now, collected below
+    jobs = _model_jobs(quick)
 
-    traces = _run_all(scs, ctx)
+    def one(job):
+        label, kind, mod, cfg, arg = job
+        if kind == "req":
+            return tlc.require_model(mod, cfg, must_cover=arg, timeout=3000, workers=4 if quick else 8)
+        return tlc.expect_violation(mod, cfg, arg, timeout=600, workers=2)
+
+    mc_ex = cf.ThreadPoolExecutor(max_workers=len(jobs))
+    mc_futs = [mc_ex.submit(one, j) for j in jobs]
+
+    # ---- conformance
+    try:
+        scs = _scenarios(ctx)
+        traces = _run_all(scs, pool)
+    finally:
+        if pool is not None:
+            pool.close()
+            pool.join()
+    fams = {}
     for sc, t in zip(scs, traces):
         size = len(t["prog"]) if "prog" in t else math.prod(t["dims"])
         ctx.count_case({"sc": sc}, nontrivial=size >= 2)
-    fams = {}
-    for sc, t in zip(scs, traces):
         f = fams.setdefault(sc["fam"], {"scenarios": 0, "trials": 0, "events": 0})
         f["scenarios"] += 1
         f["trials"] += sum(1 for e in t["ev"] if e["op"] == "start")
         f["events"] += len(t["ev"])
     ctx.notes["families"] = fams
     print(f"[C14] ran {len(scs)} scenarios on the real samplers: {fams}", flush=True)
-    judge(ctx, scs, traces, "real")
-    for i in (0, 200, len(shapes) + 5, len(scs) - 5):
-        if 0 <= i < len(scs):
-            ctx.sample({"scenario": scs[i], "events": traces[i]["ev"][:40]})
-
-    # ---- binding self-tests: a corrupted observation must be rejected
-    def first(fam, pred):
+    # binding self-tests (a corrupted observation must be rejected) run next to the main validation
+    def first(fam):
         for sc, t in zip(scs, traces):
-            if sc["fam"] == fam and pred(sc, t):
+            if (sc["fam"] == fam and len(sc["segments"]) == 1 and not sc.get("crash")
+                    and sum(e["op"] == "start" for e in t["ev"]) >= 3 and t["ev"][-2]["op"] == "return"
+                    and not any(e["op"] == "raise" for e in t["ev"])):
                 return t
         raise tlc.MachineryError(f"no trace for the binding self-test of {fam}")
 
-    def dup_trial(t):          # the last trial is evaluated once more before optimize returns
-        ev = t["ev"]
-        starts = [i for i, e in enumerate(ev) if e["op"] == "start"]
-        fin = max(i for i, e in enumerate(ev) if e["op"] == "finish")
-        ev[fin + 1:fin + 1] = [dict(e) for e in ev[starts[-1]:fin + 1]]
-        for e in ev:
-            if e["op"] == "return":
-                last_ret = e
-        last_ret["ran"] += 1
+    tb, tg = first("bf-main"), first("grid-main")
+    tests = [("BruteForceTrace", tb, _dup_trial, "leaf evaluated twice"),
+             ("BruteForceTrace", tb, _early_stop, "stopped one trial early"),
+             ("GridTrace", tg, _dup_trial, "cell evaluated twice"),
+             ("GridTrace", tg, _early_stop, "stopped one trial early")]
+    st_ex = cf.ThreadPoolExecutor(max_workers=len(tests))
+    st_futs = [st_ex.submit(ctx.binding_selftest, m, m, t, c, lab) for m, t, c, lab in tests]
+    judge(ctx, scs, traces, "real")
+    for i in (0, 200, 400, len(scs) - 5):
+        if 0 <= i < len(scs):
+            ctx.sample({"scenario": scs[i], "events": traces[i]["ev"][:40]})
+    if not ctx.violations:       # (with violations the picked trace itself may be a rejected one)
+        for f in st_futs:
+            f.result()
+    st_ex.shutdown()
 
-    def early_stop(t):         # the last trial never happened: optimize returned before the last leaf
-        ev = t["ev"]
-        starts = [i for i, e in enumerate(ev) if e["op"] == "start"]
-        fin = max(i for i, e in enumerate(ev) if e["op"] == "finish")
-        del ev[starts[-1]:fin + 1]
-        for e in ev:
-            if e["op"] == "return":
-                last_ret = e
-        last_ret["ran"] -= 1
-
-    simple = lambda sc, t: len(sc["segments"]) == 1 and not sc.get("crash") and sum(e["op"] == "start" for e in t["ev"]) >= 3  # noqa
-    tb = first("bf-main", simple)
-    ctx.binding_selftest("BruteForceTrace", "BruteForceTrace", tb, dup_trial, "leaf evaluated twice")
-    ctx.binding_selftest("BruteForceTrace", "BruteForceTrace", tb, early_stop, "stopped one trial early")
-    tg = first("grid-main", simple)
-    ctx.binding_selftest("GridTrace", "GridTrace", tg, dup_trial, "cell evaluated twice")
-    ctx.binding_selftest("GridTrace", "GridTrace", tg, early_stop, "stopped one trial early")
+    # ---- spec-level results
+    results = [f.result() for f in mc_futs]
+    mc_ex.shutdown()
+    for job, r in zip(jobs, results):
+        if job[1] == "req":
+            ctx.model(r, job[0])
+    ctx.notes["model_level_K3"] = ("BruteForceMC_k3: the modelled tree bookkeeping of the code disagrees with the property "
+                                   "as soon as a trial ends between two suggests (AlgAgreesAlways violated, as expected)")
+    ctx.notes["model_level_F13"] = ("GridAlgMC_f13: with an enqueued trial the modelled after_trial reads a grid_id that "
+                                    "does not exist (NoError violated, as expected)")
     ctx.assumptions += [
         "sequential optimize (n_jobs=1), one worker; candidate values are projected to their index in the declared "
         "candidate list (floats matched within 1e-9)",
         "a failed/pruned trial that reached a leaf counts as the evaluation of that leaf (code: finished trials mark the "
         "leaf); the trial state itself is not judged here (C02)",
         "interruptions are n_trials caps and uncaught exceptions / KeyboardInterrupt raised at a leaf; the interrupted "
-        "calls cannot exhaust the space (sum of their caps < number of leaves), a resume after exhaustion is outside the property",
+        "calls cannot exhaust the space (sum of their caps < number of leaves); a resume after exhaustion is outside "
+        "the property",
+        "one parameter name keeps its kind / log flag / categorical choices across branches (optuna rejects anything else)",
         "resume with a fresh GridSampler uses the same seed (grid ids are positions in the seed-shuffled grid)",
         "enqueued trials (grid) are not sampler choices: they are neither duplicates nor required to count as visits",
         "mid-trial failures are transient (depend on the trial ordinal, not on the parameters); spec action Abort",
